@@ -236,7 +236,23 @@ def analyze(ctx, want):
 
     rd = F.fn(r"internal::dot::render_compiled_dfa$")
     ctx.analysed_fn(rd)
-    ex, paths = run_fn(rd, F, LogModel(), max_paths=5000)
+    # the private helper is analysed in the vocabulary of its caller's main call (the one with the empty node prefix): its
+    # parameters are named after what compiled_dfa_render passes (`compiled_dfa`, or `compiled_dfa.states` and
+    # `compiled_dfa.end_states` when the helper takes the two lists instead of the automaton)
+    from .common import caller_view
+    cr0 = F.fn(r"internal::dot::compiled_dfa_render$")
+    pv0 = M.Prov(cr0)
+
+    def main_call(t_):
+        def bare_(e_):
+            while e_[0] in ("ref", "deref"):
+                e_ = e_[1]
+            return e_
+        return any(e_[0] == "const" and str(e_[1]) == '""' for e_ in (bare_(pv0.operand(a_)) for a_ in t_["args"]))
+    presets = {}
+    if "compiled_dfa" not in [rd.names().get(a_) for a_ in range(1, rd.argc + 1)]:
+        presets = {k_: v_ for k_, v_ in caller_view(cr0, rd, r"dot::render_compiled_dfa$", main_call).items() if "compiled_dfa" in S.fstr(v_)}
+    ex, paths = run_fn(rd, F, LogModel(), max_paths=5000, presets=presets)
     node_cases = set()
     edge_seen = 0
     node_ranges = set()      # (lower bound, printed upper bound) of the loops that draw nodes; ("const", k) for a node drawn outside a loop
@@ -367,7 +383,7 @@ def analyze(ctx, want):
     ob("C18.a", "node-cases-complete", node_cases == {"start", "accepting", "plain"}, "cases %s" % sorted(node_cases), rd.loc())
     # every state gets its node: the node loop runs over 0..states.len() (or over the states themselves), or the start state is
     # drawn on its own and the loop runs over 1..states.len()
-    lens = r"^(Vec::len|len)\(&?\*?compiled_dfa\.states\)$"
+    lens = r"^(Vec::len|slice::len|len)\(&?\*?compiled_dfa\.states\)$"
     whole = any(lo == "0" and (re.match(lens, hi) or (hi.startswith("enumerate:") and "compiled_dfa.states" in hi)) for lo, hi in node_ranges if lo != "const")
     peeled_ok = ("const", 0) in node_ranges and any(lo == "1" and re.match(lens, hi) for lo, hi in node_ranges if lo != "const")
     ob("C18.a", "node-loop-covers-every-state", (whole and ("const", 0) not in node_ranges) or (peeled_ok and not whole), "nodes drawn for %s" % sorted(node_ranges, key=str), rd.loc())
@@ -450,7 +466,32 @@ def analyze(ctx, want):
         la_ok = la_ok or (okc and okl)
         ob("C18.b", "lookahead-cluster-keyed-and-labelled-by-its-terminal", bool(okc and okl), "prefix args %s, label args %s" % ([S.fstr(v)[:30] for v in fp[1]] if fp else None, [S.fstr(v)[:30] for v in lab[1]] if lab else None), cr.loc(c[1]))
         ob("C18.b", "lookahead-polarity-label:%s" % ("Pos" if pol and pol[-1][1] else "Neg"), okp, "polarity label %s under is_positive=%s" % (S.fstr(lab[1][1])[:20] if lab and len(lab[1]) == 2 else None, pol[-1][1] if pol else None), cr.loc(c[1]))
-        ob("C18.b", "lookahead-automaton-drawn-with-the-scanner-registry", S.fstr(reg).lstrip("&*") == "character_class_registry" and "cluster" in S.fstr(argval(c, 3)), "registry %s, scope %s" % (S.fstr(reg)[:40], S.fstr(argval(c, 3))[:40]), cr.loc(c[1]))
+        ob("C18.b", "lookahead-automaton-drawn-with-the-scanner-registry", S.fstr(reg).lstrip("&*") == "character_class_registry" and "cluster" in S.fstr(rd_args(c, ex, pc)[3] or ("unit",)), "registry %s, scope %s" % (S.fstr(reg)[:40], S.fstr(rd_args(c, ex, pc)[3] or ("unit",))[:40]), cr.loc(c[1]))
+    # the helper's arguments by the type of its parameters (its signature may change): automaton, node prefix, registry, scope
+    def rd_args(c_, ex_, p_):
+        tys = [rd.locals[a_]["ty"] for a_ in range(1, rd.argc + 1)]
+        def at(pred):
+            ix = [k_ for k_, t_ in enumerate(tys) if pred(t_)]
+            return argval(c_, ix[0]) if len(ix) == 1 and ix[0] < len(c_[3]) else None
+        pre_ = at(lambda t_: t_ == "&str")
+        reg_ = at(lambda t_: "CharacterClassRegistry" in t_)
+        sc_ = at(lambda t_: "Scope" in t_)
+        dfa_ = at(lambda t_: "compiled_dfa::CompiledDfa" in t_)
+        if dfa_ is None:
+            # the automaton handed over as its two lists: both must come from the same automaton
+            st_ = at(lambda t_: "StateData" in t_)
+            en_ = at(lambda t_: "(bool, internal::ids::TerminalID)" in t_)
+            def base(v_, f_):
+                n_ = 0
+                while v_ is not None and v_[0] in ("ref", "deref") and n_ < 6:
+                    v2_ = ex_.deref_val(p_, v_) if v_[0] == "ref" else v_[1]
+                    if v2_ == v_:
+                        break
+                    v_, n_ = v2_, n_ + 1
+                return v_[1] if v_ is not None and v_[0] == "field" and v_[2] == f_ else None
+            b1, b2 = base(st_, "states"), base(en_, "end_states")
+            dfa_ = b1 if b1 is not None and b1 == b2 else None
+        return dfa_, pre_, reg_, sc_
     staged_used = False
     for p in paths:
         for sl_ in p.calls(r"::set_label$"):
@@ -459,7 +500,10 @@ def analyze(ctx, want):
     for p in paths:
         rc = p.calls(r"dot::render_compiled_dfa$")
         for c in rc:
-            dfa, pre, reg = argval(c, 0), argval(c, 1), argval(c, 2)
+            dfa, pre, reg, scope_ = rd_args(c, ex, p)
+            if dfa is None or pre is None or reg is None:
+                ob("C18.a", "helper-arguments-recognised", False, "render_compiled_dfa(%s): automaton / prefix / registry arguments not recognised" % ", ".join(S.fstr(a_)[:30] for a_ in c[3]), cr.loc(c[1]))
+                continue
             sl = [e for e in p.events if e[0] == "call" and re.search(r"::set_label$", e[2]) and "cluster" in S.fstr(argval(e, 0))]
             labarg = argval(sl[-1], 1) if sl else None
             if S.fstr(dfa).lstrip("&*") == "compiled_dfa":
